@@ -470,6 +470,17 @@ func templateVdrProg(plan *Tape) *Prog {
 	case 1:
 		prod.Retain = []string{"data", "more"}
 	}
+	// files inside structs, reached by projection through the struct, through a
+	// typed map of structs and through an array of structs
+	structs := plan.Draw(3) == 0
+	recT := Ty{Base: "REC"}
+	if structs {
+		p.Structs = []*StructDef{{Name: "REC", Fields: []Field{{"f", txt}, {"n", intT}, {"g", Ty{Base: "json"}}}}}
+		prod.Outs = append(prod.Outs, Field{"rec", recT}, Field{"recs", recT.MapOf()}, Field{"reca", recT.ArrayOf()})
+		if plan.Draw(3) == 0 {
+			prod.Retain = append(prod.Retain, []string{"rec", "recs", "reca"}[plan.Draw(3)])
+		}
+	}
 	p.Stages = []*StageDef{list, prod}
 	pl := &PipelineDef{Name: "TOPV", Ins: []Field{{"n", intT}}}
 	pl.Calls = append(pl.Calls, &CallDef{Callee: "LIST", Id: "LIST", Binds: []Bind{{"n", &Expr{Kind: ERef, Self: true, Path: []string{"n"}}, false}}})
@@ -504,11 +515,46 @@ func templateVdrProg(plan *Tape) *Prog {
 		}
 		pl.Calls = append(pl.Calls, c)
 	}
+	if structs {
+		// consumers and top-level outputs of the projected files
+		type proj struct {
+			name string
+			t    Ty
+			e    *Expr
+		}
+		wrap := func(t Ty) Ty {
+			if mapped {
+				return t.ArrayOf()
+			}
+			return t
+		}
+		projs := []proj{
+			{"rf", wrap(txt), ref("PRODUCE", "rec", "f")},
+			{"rsf", wrap(txt.MapOf()), ref("PRODUCE", "recs", "f")},
+			{"rag", wrap(Ty{Base: "json"}.ArrayOf()), ref("PRODUCE", "reca", "g")},
+			{"rwhole", wrap(recT), ref("PRODUCE", "rec")},
+			{"rswhole", wrap(recT.MapOf()), ref("PRODUCE", "recs")},
+		}
+		for i, pj := range projs {
+			switch plan.Draw(4) {
+			case 0:
+				name := fmt.Sprintf("PCONS%d", i)
+				p.Stages = append(p.Stages, &StageDef{Name: name, SrcKind: "comp", Ins: []Field{{"f", pj.t}}, Outs: []Field{{"done", intT}}})
+				pl.Calls = append(pl.Calls, &CallDef{Callee: name, Id: name, Binds: []Bind{{"f", pj.e, false}}})
+			case 1:
+				pl.Outs = append(pl.Outs, Field{pj.name, pj.t})
+				pl.Ret = append(pl.Ret, Bind{pj.name, pj.e, false})
+			}
+		}
+		if plan.Draw(4) == 0 {
+			pl.Retain = append(pl.Retain, ref("PRODUCE", "reca"))
+		}
+	}
 	if plan.Draw(3) == 0 {
 		pl.Retain = append(pl.Retain, ref("PRODUCE", "more"))
 	}
-	pl.Outs = []Field{{"count", intT.ArrayOf()}}
-	pl.Ret = []Bind{{"count", ref("LIST", "items"), false}}
+	pl.Outs = append(pl.Outs, Field{"count", intT.ArrayOf()})
+	pl.Ret = append(pl.Ret, Bind{"count", ref("LIST", "items"), false})
 	if plan.Draw(3) == 0 {
 		pl.Outs = append(pl.Outs, Field{"data", dataT})
 		pl.Ret = append(pl.Ret, Bind{"data", ref("PRODUCE", "data"), false})
